@@ -20,6 +20,35 @@ from ..binutils.debuginfo import FpOffsetAddress
 from .selectiongraph import SGNode, SGValue, SelectionGraph
 
 
+def split_phi_edges(ir_function):
+    """Split the edges from a conditional branch to a block with phis.
+
+    The selection graph builder places the phi copies for a successor at the
+    end of the predecessor block. When this block has several successors,
+    such a copy clobbers a phi register which may still be read on the other
+    path (for example the value of a loop phi after the loop). Give those
+    edges a block of their own to place the copies in.
+
+    Call this before prepare_function_info.
+    """
+    split_edge_nr = 1
+    for block in list(ir_function):
+        if not block.is_empty and isinstance(
+            block.last_instruction, ir.CJump
+        ):
+            for successor in block.successors:
+                # (both targets may be the same block)
+                if successor.phis and successor in block.successors:
+                    edge_block = ir.Block(
+                        f"{ir_function.name}_splitted_edge_{split_edge_nr}"
+                    )
+                    split_edge_nr += 1
+                    ir_function.add_block(edge_block)
+                    edge_block.add_instruction(ir.Jump(successor))
+                    block.change_target(successor, edge_block)
+                    successor.replace_incoming(block, [edge_block])
+
+
 def prepare_function_info(arch, function_info, ir_function):
     """Fill function info with labels for all basic blocks"""
     # First define labels and phis:
